@@ -23,6 +23,10 @@ pub struct ResCase {
     pub tape: Vec<(u64, u64)>,
     /// clear() after this many adds (0 = never), then the stream restarts
     pub clear_at: usize,
+    /// 0: every item through add(); 1: every item through extend() with an iterator without an upper
+    /// size hint; 2: alternating; 3: extend() with a filtered range (loose upper hint)
+    #[serde(default)]
+    pub via_extend: u8,
 }
 
 pub struct S3a;
@@ -81,7 +85,8 @@ impl Scenario for S3a {
             }
         }
         let clear_at = if g.chance(1, 10) && n > 0 { g.range(1, n as u64) as usize } else { 0 };
-        ResCase { k, n, rng_seed: g.u64(), tape, clear_at }
+        let via_extend = if g.chance(1, 4) { g.range(1, 3) as u8 } else { 0 };
+        ResCase { k, n, rng_seed: g.u64(), tape, clear_at, via_extend }
     }
 
     fn execute(case: &ResCase, prop: &'static str) -> Outcome {
@@ -118,7 +123,20 @@ impl Scenario for S3a {
                     }
                 }
                 let p0 = probe.pos();
-                rs.add(t as u64);
+                let item = t as u64;
+                match (case.via_extend, t % 2) {
+                    (1, _) | (2, 1) => {
+                        // the caller's iterator knows no upper bound
+                        let mut once = Some(item);
+                        rs.extend(std::iter::from_fn(move || once.take()));
+                        stats.probe("via_extend");
+                    }
+                    (3, _) => {
+                        rs.extend((item..item + 2).filter(move |x| *x == item));
+                        stats.probe("via_extend");
+                    }
+                    _ => rs.add(item),
+                }
                 i += 1;
                 stats.steps += 1;
                 let words = probe.pos() - p0;
@@ -190,6 +208,11 @@ impl Scenario for S3a {
         if case.clear_at != 0 {
             let mut c = case.clone();
             c.clear_at = 0;
+            out.push(c);
+        }
+        if case.via_extend != 0 {
+            let mut c = case.clone();
+            c.via_extend = 0;
             out.push(c);
         }
         for k in [1, case.k / 2, case.k.saturating_sub(1)] {
